@@ -1030,6 +1030,15 @@ def mk_server_cfg(args: ArgsType) -> configparser.SectionProxy:
             value = args[opt]
             if test_cfg_val(opt, value):
                 cfg[opt] = arg2config(opt, opt_type, value)
+            elif (
+                value not in NULL_ARGS
+                and opt != "clientuid"
+                and USERCFG.has_option(server, opt)
+                and cfg[opt] != arg2config(opt, opt_type, value)
+            ):
+                # The value in effect is the default, so it isn't written; but
+                # then a different value saved earlier must not stay in force
+                USERCFG.remove_option(server, opt)
 
     return cfg
 
